@@ -190,7 +190,7 @@ def explore(ctx):
         ctx.broke('harness', 'error-exit-hangs scenario', 'the run did not end by an error')
     reals = REAL_SCENARIOS if not ctx.quick() else REAL_SCENARIOS[1:3]      # 'mixed' and 'all-timeout' (a round without a winner)
     for tag, sc in reals:
-        for fork in ((False, True) if tag != 'two-files' else (False,)):
+        for fork in ((False, True, 'setsid') if tag != 'two-files' else (False,)):
             o = real_case(ctx, sc, tag, fork)
             ctx.sample({'real_pool': tag, 'fork_on_hang': fork, 'tests_started': len(o.log), 'alive_after': o.alive, 'tmp_after': o.tmp_listing})
 
